@@ -11,6 +11,7 @@ import AnthemModel.Proofs.Decompose
 import AnthemModel.Proofs.DefinitionSem
 import AnthemModel.Proofs.InductionSound
 import AnthemModel.Proofs.OutlineSound
+import AnthemModel.Proofs.DefinitionAccepted
 namespace Anthem.C13
 
 /-- well-sorted assignment -/
@@ -50,42 +51,7 @@ theorem definition_accepted_implies (f : Formula) (taken : List Pred) (p : Pred)
       (∀ x ∈ rhs.fv, x ∈ vars.foldl ins []) ∧ (∀ q ∈ rhs.preds, q ∈ taken) ∧
       ¬ (vars.foldl ins []).length < vars.length ∧
       a.args.mapM GTerm.asVar? = some tv ∧ sameSet (vars.foldl ins []) (tv.foldl ins []) = true ∧
-      tv.Nodup := by
-  unfold checkDefinition at h
-  split at h
-  · rename_i vars a rhs
-    simp only at h
-    split at h
-    · cases h
-    · rename_i hlen
-      split at h
-      · cases h
-      · rename_i tv htv
-        refine ⟨vars, a, rhs, tv, rfl, ?_⟩
-        split at h
-        · cases h
-        · rename_i hsame
-          split at h
-          · cases h
-          · rename_i htaken
-            split at h
-            · cases h
-            · rename_i hfv
-              split at h
-              · cases h
-              · rename_i hpreds
-                injection h with h
-                have hsame' : sameSet (vars.foldl ins []) (tv.foldl ins []) = true ∧ a.args.length = vars.length := by
-                  simpa using hsame
-                refine ⟨h.symm, h ▸ htaken, ?_, ?_, hlen, htv, hsame'.1,
-                  head_args_nodup vars tv hlen hsame'.1 (by rw [mapM_asVar_length _ _ htv]; exact hsame'.2)⟩
-                · intro x hx
-                  simp only [List.any_eq_true, not_exists, not_and, decide_eq_true_eq] at hfv
-                  exact Classical.not_not.mp (hfv x hx)
-                · intro q hq
-                  simp only [List.any_eq_true, not_exists, not_and, decide_eq_true_eq] at hpreds
-                  exact Classical.not_not.mp (hpreds q hq)
-  · cases h
+      tv.Nodup := Outline.definition_accepted_implies f taken p h
 
 /-- **Accepted definitions are conservative**: whatever the interpretation, changing it on the
     defined predicate alone (same symbol and arity; everything else untouched) makes the definition
@@ -96,27 +62,7 @@ theorem definition_conservative (f : Formula) (taken : List Pred) (p : Pred)
     (h : checkDefinition f taken = .ok p) (I : Interp) :
     ∃ P' : PredI,
       (∀ q ds, ¬ (q = p.symbol ∧ ds.length = p.arity) → (P' q ds ↔ I.pred q ds)) ∧
-      ∀ ρ, sat ⟨P', I.fc⟩ f ρ := by
-  obtain ⟨vars, a, rhs, tv, rfl, rfl, hnt, hfv, hpreds, _, htv, hsame, _⟩ :=
-    definition_accepted_implies f taken p h
-  refine ⟨definedPred I vars a rhs, fun q ds hq => definedPred_elsewhere I vars a rhs q ds hq, fun ρ => ?_⟩
-  simp only [sameSet, Bool.and_eq_true, List.all_eq_true, decide_eq_true_eq] at hsame
-  refine definition_conservative_core I vars a rhs tv htv (fun v => ?_) (fun x hx => ?_)
-    (fun hin => hnt (hpreds _ hin)) ρ
-  · constructor
-    · intro hv
-      have := hsame.1 v ((mem_foldl_ins vars [] v).mpr (Or.inr hv))
-      rcases (mem_foldl_ins tv [] v).mp this with h0 | h0
-      · cases h0
-      · exact h0
-    · intro hv
-      have := hsame.2 v ((mem_foldl_ins tv [] v).mpr (Or.inr hv))
-      rcases (mem_foldl_ins vars [] v).mp this with h0 | h0
-      · cases h0
-      · exact h0
-  · rcases (mem_foldl_ins vars [] x).mp (hfv x hx) with h0 | h0
-    · cases h0
-    · exact h0
+      ∀ ρ, sat ⟨P', I.fc⟩ f ρ := Outline.definition_conservative f taken p h I
 
 /-- A definition whose head repeats a variable is refused (`forall X (d(X,X) <-> in(X))`, accepted
     before the repair; replayed on the implementation as corpus/external.txt:repeated_head_argument). -/
